@@ -55,3 +55,8 @@ func (m *RWMutex) TryRLock() bool  { return m.mu.TryRLock() }
 func (m *RWMutex) Unlock()         { m.mu.Unlock() }
 func (m *RWMutex) RUnlock()        { m.mu.RUnlock() }
 func (m *RWMutex) RLocker() Locker { return m.mu.RLocker() }
+
+// the remaining exported functions of package sync, so that an instrumented file keeps compiling whatever it uses
+func OnceFunc(f func()) func()                                 { return sync.OnceFunc(f) }
+func OnceValue[T any](f func() T) func() T                     { return sync.OnceValue(f) }
+func OnceValues[T1, T2 any](f func() (T1, T2)) func() (T1, T2) { return sync.OnceValues(f) }
